@@ -1,15 +1,17 @@
-(** C12 — after shutdown is requested, over every schedule: at most ONE more mailbox callback is started; inside a callback or behind the scan the loop has returned after (entries left in the snapshot + 3) of its own moves; between callbacks it is one move from there or from the end; and Join returns exactly when Start has returned *)
+(** C12 — after shutdown is requested, over every schedule: the mailbox callbacks still started are at most one plus the number of moves at which an already expired timer wins its select against ctx.Done (a real race in Go: RetentionSleep near 0, or the minute timer firing together with the cancellation) — hence at most ONE when the ctx case wins every select ([lctx_first]: timers not expired, e.g. the default RetentionSleep of 50 ms); under that condition, inside a callback or behind the scan the loop has returned after (entries left in the snapshot + 3) of its own moves (each entry may cost one RemoveMessage call: n expired messages in the mailbox delay shutdown by up to n removals); otherwise it is one move from there, from the end, or from a scan between two mailboxes; and Join returns exactly when Start has returned *)
 From Coq Require Import ZArith.
 From IV Require Import Base.Bytes Model.StoreSpec Model.Retention Model.RetentionLoop Proofs.RetentionLoop.
 Theorem loop_cancel_prompt : forall cfg period enum,
-  (forall evs y, cancelled y -> (l_visits (lrun cfg period enum y evs) <= l_visits y + 1)%nat) /\
-  (forall evs y, cancelled y -> settled y -> (togo y <= lsteps_in evs)%nat -> l_mode (lrun cfg period enum y evs) = LExit) /\
+  (forall evs y, cancelled y -> (l_visits (lrun cfg period enum y evs) <= l_visits y + 1 + timer_wins evs)%nat) /\
+  (forall evs y, lctx_first evs -> cancelled y -> (l_visits (lrun cfg period enum y evs) <= l_visits y + 1)%nat) /\
+  (forall evs y, lctx_first evs -> cancelled y -> settled y -> (togo y <= lsteps_in evs)%nat -> l_mode (lrun cfg period enum y evs) = LExit) /\
   (forall y tf, cancelled y ->
      settled (loop_step cfg period enum y tf) \/ l_mode (loop_step cfg period enum y tf) = LExit \/
-     (l_mode y = LWait /\ exists c, l_mode (loop_step cfg period enum y tf) = LScan c /\ s_phase (l_sys (loop_step cfg period enum y tf)) = PIdle)) /\
+     (exists c, l_mode (loop_step cfg period enum y tf) = LScan c /\ s_phase (l_sys (loop_step cfg period enum y tf)) = PIdle)) /\
   (forall now st evs, let y := lrun cfg period enum (linit period now st) evs in l_mode y = LExit <-> l_closed y = true).
 Proof.
-  intros cfg period enum. split; [exact (cancel_one_callback cfg period enum)|].
+  intros cfg period enum. split; [exact (cancel_callbacks_bounded cfg period enum)|].
+  split; [exact (cancel_one_callback cfg period enum)|].
   split; [exact (cancel_exits cfg period enum)|]. split; [exact (cancel_unsettled cfg period enum)|exact (exit_closed cfg period enum)].
 Qed.
 Print Assumptions loop_cancel_prompt.
